@@ -22,6 +22,8 @@ WebhookBodies == {"valid", "nourl", "emptybody", "array", "wrongtypes", "truncat
 UrlClasses  == {"registered", "unregistered", "missing", "empty", "weird"}
 KeyClasses  == {"none", "longestroot", "staleroot", "unknown", "weird"}
 TokClasses  == {"issued", "unknown", "weird"}
+AuthRoutes  == {"AUTH GET tip/longest", "AUTH GET header/byHeight", "AUTH POST access", "AUTH POST merkleroot/verify", "AUTH GET webhook"}
+AuthHeaderClasses == {"none", "schemeOnly", "schemeAndSpace", "oneChar", "shortWord", "lowercaseScheme", "basic", "extraParts", "unknownToken", "veryLong", "binary"}
 
 HashOK(h)  == h \in {"longest", "stale", "orphan", "genesis"}
 HashBad(h) == h \in {"unknown", "malformed", "overlong"}
@@ -50,6 +52,8 @@ Rows ==
   \cup {[route |-> "DELETE webhook", p |-> <<u>>, exp |-> Fam(u = "registered", u \in {"unregistered", "missing", "empty", "weird"})] : u \in UrlClasses}
   \cup {[route |-> "POST access", p |-> <<>>, exp |-> "2xx"], [route |-> "GET access", p |-> <<>>, exp |-> "2xx4xx"]}
   \cup {[route |-> "DELETE access/:token", p |-> <<t>>, exp |-> "2xx4xx"] : t \in TokClasses}
+  \* with authentication ON: whatever stands in the Authorization header, short of a valid token the answer is a structured 4xx
+  \cup {[route |-> r, p |-> <<a>>, exp |-> "4xx"] : r \in AuthRoutes, a \in AuthHeaderClasses}
 
 \* the specification's own sanity: no row owes a 5xx, validatable mistakes owe a 4xx
 NoFiveHundred == dummy = 0 => \A r \in Rows : r.exp \in {"2xx", "4xx", "2xx4xx"}
